@@ -14,10 +14,11 @@ def handleC02 : Handler := fun st toks =>
   | "select" :: lim :: rest =>
     match takeFloats rest with
     | some (vals, _) =>
-      match cumsumBiggestUntil 0.0 vals (fOfTok lim) with
+      match cumsumBiggestUntilChecked Float.isNaN 0.0 vals (fOfTok lim) with
       | .ok r => some s!"OK {maskOfSel vals.length r.selected} {tokOfF r.last} {tokOfB r.warn}"
       | .error .emptySelection => some "ERR emptySelection"
       | .error .emptyArray => some "ERR emptyArray"
+      | .error .nanInput => some "ERR nanInput"
     | none => some "ERR parse"
   | "hdc" :: rest =>
     -- hdc <model> <alpha> (<lo> <hi> <delta>)*n  → OK n_axes axes… mask fm warn
@@ -39,6 +40,7 @@ def handleC02 : Handler := fun st toks =>
         some s!"OK {axesOut} {maskOfSel probs.length sel} {tokOfF (fmOf probM deltas)} {tokOfB warn}"
       | .error .emptySelection => some s!"ERR emptySelection {axesOut}"
       | .error .emptyArray => some "ERR emptyArray"
+      | .error .nanInput => some "ERR nanInput"
     | _ => some "ERR parse"
   | "cellprobs" :: rest =>
     -- cellprobs <model> (n axis…)*n deltas…  → OK k probs…
